@@ -768,6 +768,11 @@ func checkPointDecoder(c *Ctx, r *Run) {
 		return res
 	}
 	parOK = check(fn, true)
+	if !parOK {
+		// other spellings (a flag set by a switch over the prefix, `data[0]&1 == 1`, ...): evaluate the parity argument
+		// abstractly for the two accepted prefix bytes along every path that the prefix conditions leave open
+		parOK = parityByEvaluation(fn, isPrefix)
+	}
 	r.Check("DEC-1", name+"|parity-from-prefix", c.Pos(fn.Pos()), parOK, "the Y root is chosen odd exactly when the prefix byte is 3", "the parity passed to DecompressY is not `data[0] == 3`")
 	lift := c.LookupMethod("pkg/math/curve", "Secp256k1", "LiftX")
 	if lift == nil {
@@ -1092,4 +1097,174 @@ func xorOf(v ssa.Value) bool {
 		break
 	}
 	return x
+}
+
+// parityByEvaluation: along every path on which the branch conditions over the prefix byte hold for prefix p, the
+// parity argument of DecompressY evaluates to (p == 3), for p = 2 and p = 3. Only constants, comparisons/masks of the
+// prefix byte, negations and phis are evaluated; anything else makes the result unknown (and the rule fail).
+func parityByEvaluation(fn *ssa.Function, isPrefix func(ssa.Value) bool) bool {
+	var target *ssa.Call
+	allInstrs(fn, func(in ssa.Instruction) {
+		if call, ok := in.(*ssa.Call); ok {
+			if o := calleeObj(call); o != nil && o.Name() == "DecompressY" && len(call.Call.Args) == 3 {
+				target = call
+			}
+		}
+	})
+	if target == nil {
+		return false
+	}
+	type tri int
+	const (
+		unknown tri = iota
+		tFalse
+		tTrue
+	)
+	fromBool := func(b bool) tri {
+		if b {
+			return tTrue
+		}
+		return tFalse
+	}
+	var evalInt func(v ssa.Value, val int64, pth []*ssa.BasicBlock, d int) (int64, bool)
+	var eval func(v ssa.Value, val int64, pth []*ssa.BasicBlock, d int) tri
+	phiEdge := func(phi *ssa.Phi, pth []*ssa.BasicBlock) ssa.Value {
+		for i := len(pth) - 1; i >= 1; i-- {
+			if pth[i] == phi.Block() {
+				for k, pr := range phi.Block().Preds {
+					if pr == pth[i-1] {
+						return phi.Edges[k]
+					}
+				}
+			}
+		}
+		return nil
+	}
+	evalInt = func(v ssa.Value, val int64, pth []*ssa.BasicBlock, d int) (int64, bool) {
+		if d > 10 {
+			return 0, false
+		}
+		if isPrefix(v) {
+			return val, true
+		}
+		if k, ok := constInt(v); ok {
+			return k, true
+		}
+		switch x := v.(type) {
+		case *ssa.Convert:
+			return evalInt(x.X, val, pth, d+1)
+		case *ssa.BinOp:
+			a, ok1 := evalInt(x.X, val, pth, d+1)
+			b, ok2 := evalInt(x.Y, val, pth, d+1)
+			if !ok1 || !ok2 {
+				return 0, false
+			}
+			switch x.Op {
+			case token.AND:
+				return a & b, true
+			case token.OR:
+				return a | b, true
+			case token.XOR:
+				return a ^ b, true
+			case token.SUB:
+				return a - b, true
+			case token.ADD:
+				return a + b, true
+			case token.REM:
+				if b != 0 {
+					return a % b, true
+				}
+			case token.SHR:
+				return a >> uint(b), true
+			}
+		case *ssa.Phi:
+			if e := phiEdge(x, pth); e != nil {
+				return evalInt(e, val, pth, d+1)
+			}
+		}
+		return 0, false
+	}
+	eval = func(v ssa.Value, val int64, pth []*ssa.BasicBlock, d int) tri {
+		if d > 10 {
+			return unknown
+		}
+		if b, ok := constBool(v); ok {
+			return fromBool(b)
+		}
+		switch x := v.(type) {
+		case *ssa.UnOp:
+			if x.Op == token.NOT {
+				switch eval(x.X, val, pth, d+1) {
+				case tTrue:
+					return tFalse
+				case tFalse:
+					return tTrue
+				}
+			}
+		case *ssa.BinOp:
+			a, ok1 := evalInt(x.X, val, pth, d+1)
+			b, ok2 := evalInt(x.Y, val, pth, d+1)
+			if ok1 && ok2 {
+				switch x.Op {
+				case token.EQL:
+					return fromBool(a == b)
+				case token.NEQ:
+					return fromBool(a != b)
+				case token.LSS:
+					return fromBool(a < b)
+				case token.LEQ:
+					return fromBool(a <= b)
+				case token.GTR:
+					return fromBool(a > b)
+				case token.GEQ:
+					return fromBool(a >= b)
+				}
+			}
+		case *ssa.Phi:
+			if e := phiEdge(x, pth); e != nil {
+				return eval(e, val, pth, d+1)
+			}
+		}
+		return unknown
+	}
+	for _, val := range []int64{2, 3} {
+		reached, good := false, true
+		seen := map[[2]*ssa.BasicBlock]bool{}
+		var walk func(b, prev *ssa.BasicBlock, pth []*ssa.BasicBlock)
+		walk = func(b, prev *ssa.BasicBlock, pth []*ssa.BasicBlock) {
+			if seen[[2]*ssa.BasicBlock{prev, b}] || len(pth) > 64 {
+				return
+			}
+			seen[[2]*ssa.BasicBlock{prev, b}] = true
+			pth = append(pth, b)
+			if b == target.Block() {
+				reached = true
+				want := tFalse
+				if val == 3 {
+					want = tTrue
+				}
+				if eval(target.Call.Args[1], val, pth, 0) != want {
+					good = false
+				}
+			}
+			if iff, ok := b.Instrs[len(b.Instrs)-1].(*ssa.If); ok {
+				switch eval(iff.Cond, val, pth, 0) {
+				case tTrue:
+					walk(b.Succs[0], b, pth)
+					return
+				case tFalse:
+					walk(b.Succs[1], b, pth)
+					return
+				}
+			}
+			for _, s := range b.Succs {
+				walk(s, b, pth)
+			}
+		}
+		walk(fn.Blocks[0], nil, nil)
+		if !reached || !good {
+			return false
+		}
+	}
+	return true
 }
